@@ -80,8 +80,8 @@ class Zone(dns.zone.Zone):  # lgtm[py/missing-equals]
         self._readers: set[Transaction] = set()
         factory = self.writable_version_factory or WritableVersion
         version = factory(self, True)
-        if self.immutable_version_factory is not None:
-            version = self.immutable_version_factory(version)
+        ifactory = self.immutable_version_factory or ImmutableVersion
+        version = ifactory(version)
         self._commit_version_unlocked(None, version, origin)
 
     def reader(
